@@ -21,4 +21,31 @@ package udp
 //@   modifies lastUntil
 //@   ensures [nil] err == nil
 
+// ---- lock discipline (C19)
+//@ field listener pConn immutable
+//@ field listener readBatchSize immutable
+//@ field listener accepting atomic
+//@ field listener acceptCh immutable
+//@ field listener doneCh immutable
+//@ field listener acceptFilter immutable
+//@ field listener conns guarded_by connLock
+//@ field listener connWG immutable
+//@ field listener errClose atomic
+//@ field listener readDoneCh immutable
+//@ field listener errRead atomic
+//@ field Conn listener immutable
+//@ field Conn rAddr immutable
+//@ field Conn buffer immutable
+//@ field Conn doneCh immutable
+//@ field Conn writeDeadline immutable
+//@ field BatchConn PacketConn immutable
+//@ field BatchConn batchConn immutable
+//@ field BatchConn batchWriteMessages guarded_by batchWriteMutex
+//@ field BatchConn batchWritePos guarded_by batchWriteMutex
+//@ field BatchConn batchWriteLast guarded_by batchWriteMutex
+//@ field BatchConn batchWriteSize immutable
+//@ field BatchConn batchWriteInterval immutable
+//@ field BatchConn closed atomic
+//@ lockset C19: listener, Conn, BatchConn
+
 //@ property C10: Conn.Read, Conn.SetReadDeadline
